@@ -1,0 +1,126 @@
+//! Verification hooks. Compiled only with `--cfg arroy_verif`; never part of a normal build.
+//!
+//! Nothing here replaces or duplicates the code under test: it re-exports internals so that a
+//! harness can drive them directly, records the node ids the writer obtains, counts the
+//! iterations of the build loops and offers seeded scheduling noise (`chaos`) at a few
+//! statement boundaries of the concurrent code.
+#![allow(missing_docs)]
+
+use std::sync::atomic::{AtomicBool, AtomicU64, AtomicUsize, Ordering};
+use std::sync::Mutex;
+
+pub use crate::parallel::ConcurrentNodeIds;
+pub use crate::spaces::verif_kernels as kernels;
+pub use crate::unaligned_vector::verif_bq as bq;
+
+// ---------------------------------------------------------------------------------------------
+// loop ticks: a logical clock for the two unbounded `while` loops of a build
+
+/// 0: `incremental_index_large_descendants` loop, 1: `insert_items_in_current_trees` loop.
+pub static LOOP_TICKS: [AtomicU64; 2] = [AtomicU64::new(0), AtomicU64::new(0)];
+/// When non-zero, a loop whose tick count exceeds it makes `tick` return `true`.
+pub static LOOP_LIMIT: AtomicU64 = AtomicU64::new(0);
+
+/// Counts one iteration. Returns `true` when the armed limit is exceeded (the caller then
+/// reports a cancellation so that the harness can stop a loop that makes no progress).
+pub fn tick(site: usize) -> bool {
+    let n = LOOP_TICKS[site].fetch_add(1, Ordering::Relaxed) + 1;
+    let limit = LOOP_LIMIT.load(Ordering::Relaxed);
+    limit != 0 && n > limit
+}
+
+pub fn reset_ticks() {
+    for t in &LOOP_TICKS {
+        t.store(0, Ordering::Relaxed);
+    }
+}
+
+// ---------------------------------------------------------------------------------------------
+// id log: which thread obtained which tree-node id at which call site
+
+const LOG_CAP: usize = 1 << 20;
+static LOG_ON: AtomicBool = AtomicBool::new(false);
+static LOG_LEN: AtomicUsize = AtomicUsize::new(0);
+static LOG: [AtomicU64; LOG_CAP] = [const { AtomicU64::new(0) }; LOG_CAP];
+static USED_LOG: Mutex<Vec<Vec<u32>>> = Mutex::new(Vec::new());
+
+fn thread_tag() -> u64 {
+    static NEXT: AtomicU64 = AtomicU64::new(1);
+    thread_local! { static TAG: u64 = NEXT.fetch_add(1, Ordering::Relaxed); }
+    TAG.with(|t| *t)
+}
+
+/// Starts recording (lock-free, pre-allocated slots).
+pub fn log_start() {
+    LOG_LEN.store(0, Ordering::SeqCst);
+    USED_LOG.lock().unwrap().clear();
+    LOG_ON.store(true, Ordering::SeqCst);
+}
+
+/// Stops recording and returns `(used sets seen by ConcurrentNodeIds::new, (thread, site, id) events)`.
+#[allow(clippy::type_complexity)]
+pub fn log_stop() -> (Vec<Vec<u32>>, Vec<(u64, u8, u32)>) {
+    LOG_ON.store(false, Ordering::SeqCst);
+    let n = LOG_LEN.load(Ordering::SeqCst).min(LOG_CAP);
+    let ev = (0..n)
+        .map(|i| {
+            let w = LOG[i].load(Ordering::SeqCst);
+            (w >> 40, ((w >> 32) & 0xff) as u8, w as u32)
+        })
+        .collect();
+    (std::mem::take(&mut *USED_LOG.lock().unwrap()), ev)
+}
+
+pub fn log_used(used: &roaring::RoaringBitmap) {
+    if LOG_ON.load(Ordering::Relaxed) {
+        USED_LOG.lock().unwrap().push(used.iter().collect());
+    }
+}
+
+pub fn log_id(site: u8, id: u32) {
+    if LOG_ON.load(Ordering::Relaxed) {
+        let slot = LOG_LEN.fetch_add(1, Ordering::Relaxed);
+        if slot < LOG_CAP {
+            LOG[slot].store((thread_tag() << 40) | ((site as u64) << 32) | id as u64, Ordering::Relaxed);
+        }
+    }
+}
+
+// ---------------------------------------------------------------------------------------------
+// chaos: seeded yields / spins at statement boundaries of the concurrent code
+
+static CHAOS: AtomicU64 = AtomicU64::new(0);
+static CHAOS_HITS: AtomicU64 = AtomicU64::new(0);
+
+/// `seed == 0` disarms. `intensity` in 1..=100 is the percentage of visits that perturb.
+pub fn chaos_arm(seed: u64, intensity: u64) {
+    CHAOS.store(if seed == 0 { 0 } else { (seed << 8) | intensity.min(100) }, Ordering::SeqCst);
+    CHAOS_HITS.store(0, Ordering::SeqCst);
+}
+
+pub fn chaos_hits() -> u64 {
+    CHAOS_HITS.load(Ordering::SeqCst)
+}
+
+#[inline]
+pub fn chaos(site: u64) {
+    let c = CHAOS.load(Ordering::Relaxed);
+    if c == 0 {
+        return;
+    }
+    let n = CHAOS_HITS.fetch_add(1, Ordering::Relaxed);
+    let mut z = (c >> 8) ^ site.wrapping_mul(0x9E37_79B9_7F4A_7C15) ^ n.wrapping_mul(0xBF58_476D_1CE4_E5B9) ^ thread_tag();
+    z = (z ^ (z >> 30)).wrapping_mul(0xBF58_476D_1CE4_E5B9);
+    z ^= z >> 27;
+    if z % 100 < (c & 0xff) {
+        match (z >> 8) % 3 {
+            0 => std::thread::yield_now(),
+            1 => {
+                for _ in 0..((z >> 16) % 200) {
+                    std::hint::spin_loop();
+                }
+            }
+            _ => std::thread::sleep(std::time::Duration::from_micros((z >> 16) % 50)),
+        }
+    }
+}
